@@ -73,9 +73,10 @@ var c17Tables = []map[string]string{
 	{"*.pl": "perl", "*.sh": "shell", "*.subr": "shell", "*.txt": "shell"},
 	{"*.sh": "shell", "*.subr": "shell"},
 	{"*.pl": "perl", "*.sh": "shell", "*.subr": "shell", "a*": "upper"},
+	{}, /* Every default pattern switched off, none added. */
 }
 
-var c17TableNames = []string{"default", "default+*.txt", "default-*.pl", "default+overlapping a*"}
+var c17TableNames = []string{"default", "default+*.txt", "default-*.pl", "default+overlapping a*", "emptied"}
 
 func c17Filter(n string) shellfuncsfile.Filter {
 	switch n {
@@ -457,7 +458,10 @@ func c17(r *ev.Result, tier string) {
 				}
 				/* several sources, in the order given, both orders */
 				wantDir, _ := c17Reference([]c17Entry{e}, t, true)
-				second := []byte("second() { :; }\n")
+				second := []byte("second() { :; }") /* As written: no final newline. */
+				if _, ok := c17Eligible("second.subr", t); ok {
+					second = append(second, '\n')
+				}
 				for _, order := range [][]string{{w.dir, other, p}, {other, p, w.dir}} {
 					got, err := conv.From(order...)
 					var wb bytes.Buffer
